@@ -113,7 +113,10 @@ def rl(a, nd=6):
 
 
 def rmat(a, nd=10):
-    a = np.round(np.asarray(a, dtype=float), nd)
+    """exactly symmetric matrix as nested lists; nd=None keeps full precision (derived matrices of the second specification)"""
+    a = np.asarray(a, dtype=float)
+    if nd is not None:
+        a = np.round(a, nd)
     a = (a + a.T) / 2.0
     return a.tolist()
 
@@ -404,6 +407,7 @@ def realise(sf, env, ctx):
             cls = {"xy": XYFit, "indexed": IndexedFit, "hist": HistFit, "unbinned": UnbinnedFit}[ftype]
             if sf.get("via_Fit"):
                 ctx.op("Fit-call")
+                ctx.add_to_set("wrapper", "Fit")
                 fit = Fit(data, mfun, **kw) if mfun is not None else Fit(data, **kw)
             else:
                 fit = cls(data, mfun, **kw) if mfun is not None else cls(data, **kw)
@@ -703,16 +707,17 @@ def rho_value(rng, kind=None):
 
 
 def gen_rel_abs(rng, tier, variant, sub):
-    mixed = bool(rng.random() < 0.7)
-    spec, axis, ref = sub_spec(rng, tier, sub, mixed)
+    only = sub.endswith("-only")  # the model-referenced source is the first and only source of the fit
+    mixed = bool(rng.random() < 0.7) and not only
+    spec, axis, ref = sub_spec(rng, tier, sub[:-5] if only else sub, mixed)
     n = len(ref)
-    base = [base_error(spec, rng)]
+    base = [] if only else [base_error(spec, rng)]
     feats = {"mixed_sign_reference": bool(np.any(ref < 0) and np.any(ref > 0)), "zero_in_reference": bool(np.any(ref == 0))}
     with_rel = not np.any(np.abs(ref) < 1e-9)
     if variant == "simple-rho0":
         err, rv = rel_values(rng, n, axis)
         A = base + [src(spec, axis, "src", err=err, relative=True)]
-        B = base + [src(spec, axis, "src", err=rl(rv * np.abs(ref), 12))]
+        B = base + [src(spec, axis, "src", err=[float(v) for v in rv * np.abs(ref)])]
         return pair_case("rel-abs", variant, sub, spec, A, B, rng, features=feats, with_rel=with_rel)
     if variant == "simple-rho":
         err, rv = rel_values(rng, n, axis)
@@ -734,15 +739,15 @@ def gen_rel_abs(rng, tier, variant, sub):
     if variant == "model-ref-point":
         # relative to the model: at each parameter point the equivalent absolute source has sigma_i = rel_i * model_i(p)
         m = Model.from_spec(spec["model"])
-        err, rv = rel_values(rng, n, axis)
-        rho = float(rng.choice([0.0, 0.0, rho_value(rng)]))
+        err, rv = rel_values(rng, n, axis, shape=str(rng.choice(["scalar", "vec"])) if only else None)
+        rho = float(rng.choice([0.0, 0.0, rho_value(rng, "p")]))
         A = base + [src(spec, axis, "src", err=err, relative=True, reference="model", corr=rho)]
         pts = [gen.perturbed_params(rng, m, 0.1) for _ in range(3)]
         Bs = []
         xs = np.array(spec["x"], dtype=float)
         for p in pts:
             mv = m.f(xs, p)
-            Bs.append(base + [msrc(spec, axis, "src", simple_cov(rv * mv, rho).tolist(), reference=str(rng.choice(["data", "model"])))])
+            Bs.append(base + [msrc(spec, axis, "src", simple_cov(rv * mv, rho).tolist(), reference="data" if only else str(rng.choice(["data", "model"])))])
         case = pair_case("rel-abs", variant, sub, spec, A, Bs[0], rng, features=dict(feats, rho=rho), with_rel=False)
         case["points"] = pts
         case["B_points"] = [{"how": "dsl", "spec": spec, "ops": b, "minimizer": case["minimizer"]} for b in Bs]
@@ -894,19 +899,19 @@ def gen_constraint_case(rng, tier, variant, sub):
         if variant == "matrix-covrel-covabs":
             crel = np.array(gen.gen_psd(rng, k, scale=0.15, kind="dense"))
             cA = ["add_matrix_parameter_constraint", dict(a, matrix=rmat(crel), matrix_type="cov", uncertainties=None, relative=True)]
-            cB = ["add_matrix_parameter_constraint", dict(a, matrix=rmat(np.array(rmat(crel)) * np.outer(vals, vals), 14), matrix_type="cov", uncertainties=None, relative=False)]
+            cB = ["add_matrix_parameter_constraint", dict(a, matrix=rmat(np.array(rmat(crel)) * np.outer(vals, vals), None), matrix_type="cov", uncertainties=None, relative=False)]
         elif variant == "matrix-cor-cov":
             unc = np.round(0.15 * (np.abs(vals) + 0.05) * rng.uniform(0.5, 1.5, size=k), 6)
             cA = ["add_matrix_parameter_constraint", dict(a, matrix=cor.tolist(), matrix_type="cor", uncertainties=rl(unc), relative=False)]
-            cB = ["add_matrix_parameter_constraint", dict(a, matrix=rmat(cor * np.outer(unc, unc), 14), matrix_type="cov", uncertainties=None, relative=False)]
+            cB = ["add_matrix_parameter_constraint", dict(a, matrix=rmat(cor * np.outer(unc, unc), None), matrix_type="cov", uncertainties=None, relative=False)]
         elif variant == "matrix-correl-covrel":
             unc = np.round(rng.uniform(0.05, 0.3, size=k), 6)
             cA = ["add_matrix_parameter_constraint", dict(a, matrix=cor.tolist(), matrix_type="cor", uncertainties=rl(unc), relative=True)]
-            cB = ["add_matrix_parameter_constraint", dict(a, matrix=rmat(cor * np.outer(unc, unc), 14), matrix_type="cov", uncertainties=None, relative=True)]
+            cB = ["add_matrix_parameter_constraint", dict(a, matrix=rmat(cor * np.outer(unc, unc), None), matrix_type="cov", uncertainties=None, relative=True)]
         elif variant == "matrix-correl-covabs":
             unc = np.round(rng.uniform(0.05, 0.3, size=k), 6)
             cA = ["add_matrix_parameter_constraint", dict(a, matrix=cor.tolist(), matrix_type="cor", uncertainties=rl(unc), relative=True)]
-            cB = ["add_matrix_parameter_constraint", dict(a, matrix=rmat(cor * np.outer(unc * vals, unc * vals), 14), matrix_type="cov", uncertainties=None, relative=False)]
+            cB = ["add_matrix_parameter_constraint", dict(a, matrix=rmat(cor * np.outer(unc * vals, unc * vals), None), matrix_type="cov", uncertainties=None, relative=False)]
         else:
             raise KeyError(variant)
     case = pair_case("constraint", variant, sub, spec, base + [cA], base + [cB], rng, features=feats, with_rel=False)
@@ -1056,8 +1061,17 @@ def gen_wrapper_xy(rng, tier, variant, sub):
     n = len(x)
     rel_to_model = {"default": None, "true": True, "false": False}[str(rng.choice(["default", "default", "true", "false"]))]
     eff_model = rel_to_model is not False
+    forced_matrix = None
     if sub == "rel-only":
         chosen = ["y_error_rel"]
+    elif sub == "rel-matrix":
+        forced_matrix = str(rng.choice(["x_error_rel", "y_error_rel"]))
+        if forced_matrix == "y_error_rel":
+            rel_to_model, eff_model = False, False  # (a matrix relative to the model is a documented NotImplementedError)
+        chosen = ["y_error", forced_matrix]
+    elif sub.startswith("only:"):
+        k0 = sub[5:]
+        chosen = [k0] if k0 in ("y_error", "y_error_rel") else ["y_error", k0]
     else:
         others = [k for k in XY_KW if k != "y_error"]
         chosen = ["y_error"] + [str(k) for k in rng.choice(others, size=int(rng.integers(0, 4)), replace=False)]
@@ -1071,6 +1085,8 @@ def gen_wrapper_xy(rng, tier, variant, sub):
         val, kind = wrapper_error_value(rng, n, relative, correlated, scale, allow_matrix)
         if sub == "rel-only":
             val, kind = r6(scale * rng.uniform(0.8, 1.5)), "scalar"
+        if k == forced_matrix:
+            val, kind = np.array(gen.gen_psd(rng, n, scale=scale)).tolist(), "matrix"
         kw[k] = val
         if kind in ("vector", "matrix", "list"):
             arr.append(k)
@@ -1148,12 +1164,17 @@ def gen_wrapper_generic(rng, tier, variant, sub):
         n = len(ref)
         rel_to_model = {"default": None, "true": True, "false": False}[str(rng.choice(["default", "default", "true", "false"]))]
         eff_model = rel_to_model is not False
-        any_err = ftype == "indexed" or rng.random() < 0.7
+        any_err = ftype == "indexed" or rng.random() < 0.7 or sub.startswith("only:")
         chosen = []
         if any_err:
             chosen = ["error"] + [str(k) for k in rng.choice(["error_rel", "error_cor", "error_cor_rel"], size=int(rng.integers(0, 3)), replace=False)]
             if sub == "rel-only":
                 chosen = ["error_rel"]
+            if sub == "rel-matrix":
+                chosen, rel_to_model, eff_model = ["error", "error_rel"], False, False
+            if sub.startswith("only:"):
+                k0 = sub[5:]
+                chosen = [k0] if k0 in ("error", "error_rel") else ["error", k0]
         for k in chosen:
             relative, correlated = GEN_KW[k]
             scale = 0.06 if relative else 0.1 * float(np.abs(ref).mean() + np.std(ref) + 0.3)
@@ -1161,6 +1182,8 @@ def gen_wrapper_generic(rng, tier, variant, sub):
             val, kind = wrapper_error_value(rng, n, relative, correlated, scale, not (relative and reference == "model"))
             if sub == "rel-only":
                 val, kind = r6(scale * rng.uniform(0.8, 1.5)), "scalar"
+            if sub == "rel-matrix" and k == "error_rel":
+                val, kind = np.array(gen.gen_psd(rng, n, scale=scale)).tolist(), "matrix"
             kw[k] = val
             if kind in ("vector", "matrix", "list"):
                 arr.append(k)
@@ -1169,6 +1192,8 @@ def gen_wrapper_generic(rng, tier, variant, sub):
             kw["errors_rel_to_model"] = rel_to_model
         if ftype == "hist":
             ga = {"default": None, "true": True, "false": False}[str(rng.choice(["default", "default", "true", "false"]))]
+            if sub.startswith("only:"):
+                ga = None
             if ga is not None:
                 kw["gauss_approximation"] = ga
             eff_ga = bool(chosen) if ga is None else ga
@@ -1295,14 +1320,18 @@ def gen_model_form(rng, tier, variant, sub):
     form = variant
     nmax = 9 if tier == "quick" else 16
     if form == "library" or sub.startswith("lib"):
+        alias = None
         if sub in ("lib-unbinned", "lib-hist"):
             lib = "normal_distribution"
+        elif sub.startswith("lib:"):
+            alias = sub[4:]
+            lib = [k for k, v in LIBRARY.items() if alias in v[0]][0]
         else:
             lib = str(rng.choice(["linear_model", "quadratic_model", "cubic_model", "exponential_model"]))
-        ftype = {"lib-unbinned": "unbinned", "lib-hist": "hist"}.get(sub, "xy")
+        ftype = {"lib-unbinned": "unbinned", "lib-hist": "hist"}.get(sub, "unbinned" if lib == "normal_distribution" else "xy")
         md = mdesc_library(lib)
         data = library_data(rng, md, ftype, int(rng.integers(len(md["params"]) + 2, nmax + 1)) if ftype == "xy" else int(rng.integers(30, 80)))
-        lib_string = str(rng.choice(LIBRARY[lib][0]))
+        lib_string = alias or str(rng.choice(LIBRARY[lib][0]))
     else:
         lib_string = None
         if sub == "density-unbinned":
@@ -1409,10 +1438,10 @@ def yaml_axis_errors(rng, kind, n, ref, axis):
             else:
                 ab[i] = r6(sc_abs * rng.uniform(0.6, 1.5))
                 short.append(float(ab[i]))
-        expl = [{"type": "simple", "error_value": rl(rel, 12), "relative": True, "correlation_coefficient": 0.0},
-                {"type": "simple", "error_value": rl(ab, 12), "relative": False, "correlation_coefficient": 0.0}]
-        ops = [["add_error", dict(ax, err=rl(rel, 12), relative=True, reference="data", corr=0.0, name=axis + "rel")],
-               ["add_error", dict(ax, err=rl(ab, 12), relative=False, reference="data", corr=0.0, name=axis + "abs")]]
+        expl = [{"type": "simple", "error_value": [float(v) for v in rel], "relative": True, "correlation_coefficient": 0.0},
+                {"type": "simple", "error_value": [float(v) for v in ab], "relative": False, "correlation_coefficient": 0.0}]
+        ops = [["add_error", dict(ax, err=[float(v) for v in rel], relative=True, reference="data", corr=0.0, name=axis + "rel")],
+               ["add_error", dict(ax, err=[float(v) for v in ab], relative=False, reference="data", corr=0.0, name=axis + "abs")]]
         return short, expl, ops
     raise KeyError(kind)
 
@@ -1539,7 +1568,7 @@ def gen_yaml(rng, tier, variant, sub):
 # ================================================================== strata + dispatch
 def _strata():
     S = []
-    for v, subs in (("simple-rho0", SUBS), ("simple-rho", ["xy-y", "xy-x", "indexed"]), ("matrix-cov", ["xy-y", "indexed"]), ("matrix-cor", ["xy-y", "xy-x"]), ("model-ref-point", ["xy-y", "indexed"])):
+    for v, subs in (("simple-rho0", SUBS), ("simple-rho", ["xy-y", "xy-x", "indexed"]), ("matrix-cov", ["xy-y", "indexed"]), ("matrix-cor", ["xy-y", "xy-x"]), ("model-ref-point", ["xy-y", "indexed", "xy-y-only", "indexed-only"])):
         S += [("rel-abs", v, s) for s in subs]
     for v, subs in (("abs", ["xy-y", "xy-x", "hist"]), ("rel", ["xy-y", "indexed"]), ("scalar-errval", ["xy-y"]), ("model-ref", ["xy-y", "indexed"]), ("container", ["xy-y", "xy-x", "indexed"])):
         S += [("cor-cov", v, s) for s in subs]
@@ -1548,10 +1577,11 @@ def _strata():
     for v, subs in (("fit", SUBS), ("container", SUBS), ("multifit", ["xy-y", "indexed"]), ("rel", ["xy-y", "xy-x"]), ("model-ref", ["xy-y", "hist"]), ("cor-errval", ["xy-y"])):
         S += [("scalar-vector", v, s) for s in subs]
     S += [("constraint", v, "xy") for v in ("simple-rel-abs", "matrix-covrel-covabs", "matrix-cor-cov", "matrix-correl-covrel", "matrix-correl-covabs")] + [("constraint", "simple-rel-abs", "indexed")]
-    for v, subs in (("xy_fit", ["model", "default-model", "rel-only"]), ("k2Fit", ["model"]), ("indexed_fit", ["model", "rel-only"]), ("hist_fit", ["model", "default-model"]), ("unbinned_fit", ["model", "default-model"]), ("custom_fit", ["-"]),
+    for v, subs in (("xy_fit", ["model", "default-model", "rel-only", "rel-matrix"] + ["only:" + k for k in XY_KW]), ("k2Fit", ["model"]), ("indexed_fit", ["model", "rel-only", "rel-matrix"] + ["only:" + k for k in GEN_KW]),
+                    ("hist_fit", ["model", "default-model"] + ["only:" + k for k in GEN_KW]), ("unbinned_fit", ["model", "default-model"]), ("custom_fit", ["-"]),
                     ("Fit", ["xy-list", "xy-ndarray", "xy-container", "indexed", "hist", "unbinned"])):
         S += [("wrapper", v, s) for s in subs]
-    for v, subs in (("library", ["lib-xy", "lib-unbinned", "lib-hist"]), ("sympy", ["lib-xy", "vlib", "renamed", "density-unbinned", "density-hist"]), ("sympy-noname", ["vlib"]), ("source", ["lib-xy", "vlib", "renamed", "indexed"]),
+    for v, subs in (("library", ["lib-unbinned", "lib-hist"] + ["lib:" + a for v in LIBRARY.values() for a in v[0]]), ("sympy", ["lib-xy", "vlib", "renamed", "density-unbinned", "density-hist"]), ("sympy-noname", ["vlib"]), ("source", ["lib-xy", "vlib", "renamed", "indexed"]),
                     ("yaml-source", ["vlib", "indexed", "density-hist", "density-unbinned"]), ("yaml-string", ["lib-xy", "vlib"])):
         S += [("model-form", v, s) for s in subs]
     S += [("yaml", v, "xy") for v in ("percent-scalar", "float-scalar", "float-list", "mixed-list", "x-percent", "model-dict", "model-parameters", "constraint-dict")]
